@@ -182,6 +182,20 @@ def run_workload(case, d, log, label_child=None):
             f.write(b"other 0\nother 1\nother 2\n")
     if case.get("other_object") == "parent_before_fork":
         use_another_object("parent")
+    twins = []
+    if case.get("twin_objects"):
+        # further objects on the SAME file, open in the parent when it forks: a second object of the class and a copy.copy of
+        # the opened object; the parent and some children read through them
+        import copy
+        o2 = open_object(case, path, lines)
+        o2.open()
+        twins.append(("second object on the same file", o2))
+        try:
+            twins.append(("copy.copy of the opened object", copy.copy(obj)))
+        except Exception:
+            pass
+        for name_, t_ in twins:
+            do_reads(t_, case, lines, "parent-" + name_.split()[0], 3, case["seed"] + 11, log)
     kids = []
     style = case.get("fork_style", "os.fork")
     K = case["children"]
@@ -260,8 +274,20 @@ def run_workload(case, d, log, label_child=None):
             use_another_object(f"{'child' if depth == 0 else 'grandchild'}{i}")
         if i % 2 == 0:
             continue_iteration(f"{'child' if depth == 0 else 'grandchild'}{i}")
-        do_reads(obj, case, lines, f"{'child' if depth == 0 else 'grandchild'}{i}", nreads, case["seed"] * 101 + i * 7 + depth, log,
-                 first=None if last_parent is None else last_parent + 1)
+        who_ = f"{'child' if depth == 0 else 'grandchild'}{i}"
+        reader = obj
+        if twins and i % 2 == 1:
+            reader = twins[(i // 2) % len(twins)][1]       # this child reads through the second object / the copy made in the parent
+        if case.get("child_thread") and i % 2 == 0:
+            # the child does its reads in a thread of its own
+            import threading
+            t_ = threading.Thread(target=do_reads, args=(reader, case, lines, who_, nreads, case["seed"] * 101 + i * 7 + depth, log),
+                                  kwargs={"first": None if last_parent is None else last_parent + 1}, name="vf:childreader")
+            t_.start()
+            t_.join()
+        else:
+            do_reads(reader, case, lines, who_, nreads, case["seed"] * 101 + i * 7 + depth, log,
+                     first=None if last_parent is None else last_parent + 1)
         if i % 2 == 1:
             continue_iteration(f"{'child' if depth == 0 else 'grandchild'}{i}")
         if sub:
